@@ -69,6 +69,16 @@ DUPKEY_TABLES = {
     'placement_aggregates': 'uuid',
     'traits': 'name',
     'resource_classes': 'name',
+    # association / data rows a racing request may have inserted first
+    'resource_provider_aggregates': 'resource_provider_id, '
+                                    'resource_provider_aggregates.'
+                                    'aggregate_id',
+    'resource_provider_traits': 'trait_id, resource_provider_traits.'
+                                'resource_provider_id',
+    'inventories': 'resource_provider_id, inventories.resource_class_id',
+    # not resource_providers: a provider is created by an INSERT plus an
+    # UPDATE of its root pointer, so "the same INSERT by the winner" would
+    # not be a faithful winner row
 }
 
 STMT_FAULTS = ('deadlock-keep', 'deadlock-rollback', 'dupkey', 'connlost',
@@ -283,6 +293,8 @@ class Sim(object):
         if not task.pending_winners:
             return
         side = self.world._side()
+        task.flushed_winners = getattr(task, 'flushed_winners', []) + \
+            list(task.pending_winners)
         try:
             for stmt, params, many in task.pending_winners:
                 try:
